@@ -126,7 +126,9 @@ def rename_prog(node, m):
 
 class DFConfig:
     def __init__(self, size, depth, alphabet="full", kinds=KINDS, periph=0, top_items=3, ivar_after=True,
-                 renames=None, prologues=None, returns=None, nested_ranges=False, ranges_all=False):
+                 renames=None, prologues=None, returns=None, nested_ranges=False, ranges_all=False, hoist_while=False):
+        self.hoist_while = hoist_while       # a while nested in a loop/if may have its counter and condition initialised
+        #                                      once, at function level, instead of right before the while statement
         self.nested_ranges = nested_ranges   # inside a for body, range(1 - i) / range(i) are in the range menu
         self.ranges_all = ranges_all         # every range of the menu is explored (instead of deviation-bounded)
         self.renames = renames          # list of (label, mapping): every one is explored (ch.all)
@@ -193,8 +195,13 @@ def df_driver(cfg):
                 if kind == "whileb":
                     brk = "e" + sfx
                     body = body + [["assign", brk, ["bin", ">=", V(j), L(2)]]]
-                return [["assign", j, ["bin", "*", V("k"), L(0)]], ["assign", c, ["bin", "<", V(j), V("k")]],
-                        ["while", c, body, brk]]
+                init = [["assign", j, ["bin", "*", V("k"), L(0)]], ["assign", c, ["bin", "<", V(j), V("k")]]]
+                if cfg.hoist_while and depth > 0 and ch.all("while_init", ["local", "hoisted"]) == "hoisted":
+                    # the condition variable is assigned before the enclosing construct and inside the while body
+                    # only: in a later pass of an enclosing loop the while starts from the values the previous pass left
+                    state.setdefault("hoisted", []).extend(init)
+                    return [["while", c, body, brk]]
+                return init + [["while", c, body, brk]]
             raise AssertionError(kind)
 
         def block(depth, ivar, nonempty):
@@ -220,7 +227,7 @@ def df_driver(cfg):
             ret = ch.choose("return", RETURNS)
         stale = ch.choose("ivar_after", [False, True]) if cfg.ivar_after else False
         body = block(0, None, True)
-        full = list(pro[1]) + body
+        full = list(pro[1]) + state.get("hoisted", []) + body
         if stale:
             if not any(s[0] == "for" for s in body):
                 raise explore.Prune()
@@ -755,6 +762,14 @@ def enumerate_plan(tier, stats, with_rename=False):
         fams.append(("df-reduced-s4-nestedloops", df_driver(DFConfig(size=4, depth=2, alphabet="reduced", kinds=["for", "while"],
                                                                         returns=["u", "v", "u,v"], nested_ranges=True,
                                                                         ranges_all=True, ivar_after=False)), 1))
+    if tier == "quick":
+        # a while nested in a loop whose counter/condition are initialised once at function level (seeded C01g: the
+        # condition variable of an inner while dropped out of the enclosing loop's carried state)
+        fams.append(("df-mini-s4-d2-whilehoist", df_driver(DFConfig(size=4, depth=2, alphabet="mini", kinds=["for", "while"],
+                                                                      returns=["u", "u,v"], hoist_while=True, ivar_after=False)), 0))
+    else:
+        fams.append(("df-reduced-s4-d2-whilehoist", df_driver(DFConfig(size=4, depth=2, alphabet="reduced", kinds=["if", "for", "while"],
+                                                                         returns=["u", "v", "u,v"], hoist_while=True, ivar_after=False)), 0))
     if with_rename:
         # C01 executes the renaming family that C02 only decorates: a local named like a name the translator
         # generates (u_0, x_0, tmp ...) that is read inside a body in which the colliding variable is carried
